@@ -440,6 +440,8 @@ def do_op(op, states, workdir):
         c = "state.fit"
         kw = {}
         data = tens(op["data"])
+        if op.get("np_data"):  # the DOCUMENTED type of `data` is numpy.ndarray (branch `torch.tensor(data, …)` of fit)
+            data = np.array(op["data"], dtype=np.float64)
         ev = op.get("evaluator")
         cbs = []
         if ev is not None:  # a callback that SAMPLES inside the epoch loop (Observable statistics every `period` epochs)
